@@ -1,5 +1,6 @@
 CONSTANTS FlawShallowListFreeze = FALSE
  FlawSharedConstants = TRUE
+ FlawSharedLiterals = TRUE
  FlawInPlaceSort = FALSE
  FlawAppendSharesCapacity = FALSE
  FlawSortedAliasesOrdered = FALSE
